@@ -179,3 +179,55 @@ Section Client.
     let (r, d') := index_handle index_t idx_decode idx_encode c d (mk_req PUT ([slash] ++ name) auth (idx_encode ix)) in
     (store_object budget (const_script r), d').
 End Client.
+
+(* ---------- request bodies across retries ----------
+   IssueHttpRequest calls getReader() once per attempt (http.NewRequest(method, url, getReader())),
+   so attempt k carries whatever the k-th call of the callback produces.  [body_of k] is that
+   byte string; the log is the list of bodies of the requests actually sent, in order. *)
+Fixpoint retry_loop_log (fuel : nat) (budget attempt : N) (body_of : nat -> bytes) (rs : nat -> resp_ev)
+  : option (hres * N * list bytes) :=
+  match fuel with
+  | O => None
+  | S fuel' =>
+      let attempt := (attempt + 1)%N in
+      let sent := body_of (N.to_nat (attempt - 1)) in                 (* getReader() *)
+      let h := issue_once (rs (N.to_nat (attempt - 1))) in
+      if retryable h then
+        if (budget <=? attempt)%N then Some (give_up h, attempt, [sent])
+        else match retry_loop_log fuel' budget attempt body_of rs with
+             | Some (r, n, l) => Some (r, n, sent :: l)
+             | None => None
+             end
+      else Some (h, attempt, [sent])
+  end.
+
+Definition issue_retryable_log (budget : N) (body_of : nat -> bytes) (rs : nat -> resp_ev) : hres * N * list bytes :=
+  match retry_loop_log (retry_fuel budget) budget 0 body_of rs with
+  | Some r => r
+  | None => (HErr, 0%N, [])
+  end.
+
+(* RemoteHTTPBase.StoreObject with the bodies it sent *)
+Definition store_object_log (budget : N) (body_of : nat -> bytes) (rs : nat -> resp_ev) : bool * N * list bytes :=
+  match issue_retryable_log budget body_of rs with
+  | (h, n, l) => (match h with HErr => false | HStatus st _ => (st =? 200)%N || (st =? 201)%N end, n, l)
+  end.
+
+(* RemoteHTTPIndex.StoreIndex: the callback starts a fresh pipe fed by idx.WriteTo on every call,
+   so every attempt carries the whole serialised index.
+   RemoteHTTP.StoreChunk: the callback wraps the same byte slice in a new bytes.Reader every call. *)
+Definition store_payload_log (budget : N) (payload : bytes) (rs : nat -> resp_ev) : bool * N * list bytes :=
+  store_object_log budget (fun _ => payload) rs.
+
+(* A server that keeps the body of a PUT it answers 2xx (and nothing otherwise): the object it
+   holds after the client's attempts, given which attempts it answered how. *)
+Fixpoint stored_after (rs : nat -> resp_ev) (k : nat) (bodies : list bytes) (obj : option bytes) : option bytes :=
+  match bodies with
+  | [] => obj
+  | b :: r =>
+      let obj' := match rs k with
+                  | Status st _ => if ((st =? 200) || (st =? 201))%N then Some b else obj
+                  | _ => obj
+                  end in
+      stored_after rs (S k) r obj'
+  end.
